@@ -45,7 +45,7 @@ class _BaseITML(MahalanobisMixin):
       self.bounds_ = np.percentile(pairwise_distances(X), (5, 95))
     else:
       bounds = check_array(bounds, allow_nd=False, ensure_min_samples=0,
-                           ensure_2d=False, copy=True)
+                           ensure_2d=False, copy=True, dtype=float)
       bounds = bounds.ravel()
       if bounds.size != 2:
         raise ValueError("`bounds` should be an array-like of two elements.")
